@@ -89,6 +89,52 @@ def w_cli(job):
     return n, fails, counts
 
 
+# ------------------------------------------------------------------ file names: the module that comes back is the one written to THAT file
+FN_NAMES = ["p.nslir", "p", "p.bin", "p.O1", "p.nslir.bak", "q.nslir", "sub/p.nslir", "p.NSLIR"]
+FN_SOURCES = ["export function f(int a) -> int { return a + 1; }\n",
+              "export function f(int a) -> int { int t = a * 2; if (t > 3) { t = t - 1; } return t; }\nexport function g(float x) -> float { return x * 0.5; }\n"]
+
+
+def w_names(job):
+    """Two different modules are written under two names of the alphabet into ONE directory (either order, either optimisation
+    level); every file is then loaded by exactly the path it was written to (relative and absolute) and must list like what was
+    written to it.  A name without the file falls back to <name>.nslir only if no file of that exact name exists."""
+    from ..nslapi import listing
+    from nsl import LinearIR
+    i, j, opt = job
+    n1, n2 = FN_NAMES[i], FN_NAMES[j]
+    fails, n = [], 0
+    d = tempfile.mkdtemp(prefix="nslmc-fn-", dir=snapshot._tmp_root())
+    old = os.getcwd()
+    try:
+        os.makedirs(os.path.join(d, "sub"))
+        written = {}
+        for name, src, o in ((n1, FN_SOURCES[0], opt), (n2, FN_SOURCES[1], 1 - opt)):
+            open(os.path.join(d, "in.nsl"), "w").write(src)
+            code, mod = checkers.run_nslc(["in.nsl", "-o", name, "-O", str(o)], d)
+            if code != 0 or mod is None or not os.path.exists(os.path.join(d, name)):
+                fails.append({"key": f"C17|names|nslc-does-not-write|{name}", "source": src, "names": [i, j, opt], "expected": f"nslc.py -o {name} writes the file", "observed": f"exit {code}"})
+                return n, fails
+            written[name] = listing(mod)
+        os.chdir(d)
+        for name, want in written.items():
+            for how, path in (("relative", name), ("absolute", os.path.join(d, name))):
+                n += 1
+                try:
+                    got = listing(LinearIR.FilesystemModuleLoader().Load(path))
+                except BaseException as e:
+                    got = f"<<{type(e).__name__}: {e}>>"
+                if got != want:
+                    other = [k for k in written if k != name][0]
+                    what = "the-other-file" if got == written[other] else "something-else"
+                    fails.append({"key": f"C17|names|load-returns-{what}|written={name};sibling={other}", "source": FN_SOURCES[0] + "----\n" + FN_SOURCES[1], "names": [i, j, opt],
+                                  "expected": f"Load({name!r}) [{how}] lists like the module nslc.py wrote to {name}", "observed": got[:300]})
+    finally:
+        os.chdir(old)
+        shutil.rmtree(d, ignore_errors=True)
+    return n, fails
+
+
 _family_run = run
 
 
@@ -110,6 +156,19 @@ def run(tier, seed):
     out["coverage"]["evaluations"] += n
     out["coverage"]["distinct_nontrivial"] += n
     out["coverage"]["per_family"]["CLI(subprocess nslc.py + nslr.py)"] = n
+    jobs = [(i, j, o) for i in range(len(FN_NAMES)) for j in range(len(FN_NAMES)) if i != j for o in (0, 1)]
+    m = 0
+    seen = {f["key"] for f in out["failures"]}
+    for a, fl in pool.pmap(w_names, jobs, hermetic=False):
+        m += a
+        for f in fl:
+            out["coverage"]["failing_cases_per_key"][f["key"]] = out["coverage"]["failing_cases_per_key"].get(f["key"], 0) + 1
+            if f["key"] not in seen:
+                out["failures"].append(f)
+                seen.add(f["key"])
+    out["coverage"]["evaluations"] += m
+    out["coverage"]["distinct_nontrivial"] += m
+    out["coverage"]["per_family"]["names(ordered pairs of output file names in one directory x -O)"] = m
     return out
 
 
@@ -117,6 +176,11 @@ _family_replay = replay
 
 
 def replay(rec, verbose=True):
+    if "names" in rec:
+        n, fl = w_names(tuple(rec["names"]))
+        if verbose:
+            print(fl)
+        return any(f["key"] == rec["key"] for f in fl)
     if "cli" in rec:
         n, fl, _ = w_cli((rec["cli"], rec["cli"] + 1, 40))
         if verbose:
